@@ -57,6 +57,30 @@ def gen(seed: int, tier: str, idx=None):
             g.emit({"op": "save", "d": 0, "slot": rng.choice(ALL_SLOTS)})
         cfg["fixture_resave"] = True
         return cfg, g.ops
+    if idx is not None and idx % 5 == 3:
+        # control cells and formats on EVERY table of a shipped document (tables keep their lookup lists in differently
+        # named archives; one table of issue-9 keeps its control-cell list in the unsuffixed Index/Tables/DataList.iwa)
+        name = pool[(idx // 5) % len(pool)]
+        if (_SURVEY[name].get("cells") or 0) <= 3000:
+            g.emit({"op": "open_fixture", "name": name})
+            ntab = min(_SURVEY[name].get("tables") or 1, 10)
+            kinds = ["popup_num", "slider", "stepper", "rating", "currency", "number"]
+            for t in range(ntab):
+                for s in range(min(_SURVEY[name].get("sheets") or 1, 6)):
+                    pass
+            for t in range(ntab):
+                # addressed through (sheet t, table t): pick_table wraps both modulo the real counts, walking the diagonal;
+                # a second pass below walks (sheet 0, table t)
+                for (ss, tt) in ((t, t), (0, t)):
+                    g.emit({"op": "write", "d": 0, "s": ss, "t": tt, "r": 0, "c": 0, "v": V.enc("pop")})
+                    g.emit({"op": "set_format", "d": 0, "s": ss, "t": tt, "r": 0, "c": 0, "k": rng.randrange(1000)})
+                    g.emit({"op": "write", "d": 0, "s": ss, "t": tt, "r": 0, "c": 0, "v": V.enc(2.5)})
+                    g.emit({"op": "set_format", "d": 0, "s": ss, "t": tt, "r": 0, "c": 0, "k": rng.randrange(1000), "kind": rng.choice(kinds)})
+            slot = rng.choice(ALL_SLOTS)
+            g.emit({"op": "save", "d": 0, "slot": slot})
+            g.emit({"op": "restart", "d": 0, "slot": slot})
+            cfg["fixture_controls"] = True
+            return cfg, g.ops
     fault_arm = rng0.random() < 0.3
     if rng0.random() < 0.2:
         g.emit({"op": "open_fixture", "name": rng0.choice([k for k in FIX_QUICK if (_SURVEY[k].get("cells") or 0) <= 400])})
